@@ -507,6 +507,7 @@ class World:
         self.cb_keep = []        # keep callbacks alive so id() stays unique
         self.assocs = {}         # src tuple -> live association dict
         self.all_assocs = []
+        self.srvq = {}           # ground truth per query on the server: born, socket in flight, answered, expired
         self.alloc_count = {}    # id -> how many flows it has been given to (id reuse = count > 1)
         self.occupied_total = 0  # ids taken by other flows (occupy steps)
         # server ground truth
@@ -616,6 +617,11 @@ class World:
                     world.next_hid += 1
                     s.meta = world.pending_dns_meta.pop(0) if world.pending_dns_meta else None
                     world.cur_owner = s
+                    for g in world.srvq.values():
+                        if g['chan'] == chan and not g['answered'] and not g['expired']:
+                            g['overwritten'] = True      # id reuse: dnshandlers[chan] now names the new handler
+                    world.srvq[s.hid] = dict(hid=s.hid, chan=chan, qid=(s.meta[1] if s.meta else None), born=world.now,
+                                             inflight=None, answered=False, expired=False, overwritten=False)
                     saved['dnsproxy'].__init__(s, mux, chan, request, to_ns)
 
                 def callback(s, sock):
@@ -1346,6 +1352,55 @@ class World:
                     self.h('dns-non-network-error-gave-up')
                 if last in net_errs:
                     self.h('dns-network-error')
+        # 2b. ground truth of each query on the server (independent of the handler's own `ok` flag)
+        evs = []
+        if info['op'] == 'ssock' and info.get('sock') is not None:
+            evs = [(info['sock'], info['event'])]
+        elif info['op'] == 'smulti':
+            evs = [(e['sock'], e['ev']) for e in info['events'] if e['sock'] is not None]
+        got = list(frames)
+        for sk, e in evs:
+            if sk.kind != 'dns':
+                continue
+            g = next((x for x in self.srvq.values() if x['inflight'] == sk.sid), None)
+            if g is None:
+                continue
+            if e[0] == 'e':
+                g['inflight'] = None                      # the error consumed that socket
+                continue
+            f = (g['chan'], C.CMD_DNS_RESPONSE, e[2][:4096])
+            live = not g['answered'] and not g['expired']
+            if f in got:
+                got.remove(f)
+                if g['expired'] and not g['answered']:
+                    self.violate('C10:reply-relayed-after-server-expiry',
+                                 'query %s reached the server at %d and was unanswered for more than 30 s when a server round '
+                                 'ended: it is forgotten, a later reply is not relayed' % (g['qid'], g['born']),
+                                 'relayed at %d: %s' % (self.now, show_frames([f])[:120]))
+                g['answered'] = True
+            elif live and not raised:
+                self.violate('C10:reply-not-relayed:request-was-in-flight',
+                             'query %s was sent to the resolver on socket %d (attempt succeeded), is unanswered and not 30 s '
+                             'old: the reply arriving on that socket is relayed as %s' % (g['qid'], sk.sid, show_frames([f])[:120]),
+                             'nothing relayed; ' + self.server_state()[:200])
+        for rec, _d in self.rsends:                       # successful sends of this round: now in flight
+            g = self.srvq.get(rec.owner_hid)
+            if g is not None:
+                g['inflight'] = rec.sid
+        if not raised:
+            # the sweep at the end of this round forgets what is older than 30 s
+            for g in self.srvq.values():
+                if not g['expired'] and not g['answered'] and not g['overwritten'] and g['born'] + 30 * TICKS < self.now:
+                    g['expired'] = True
+                    self.h('dns-query-expired-on-server')
+            for h in self.shandlers:
+                if isinstance(h, self.RecDnsProxy) and h.ok:
+                    g = self.srvq.get(h.hid)
+                    if g is not None and g['expired']:
+                        self.violate('C10:server-handler-not-retired-after-expiry',
+                                     'query %s (on the server since %d, now %d) is forgotten: its handler is retired and '
+                                     'dropped from the handler list' % (g['qid'], g['born'], self.now),
+                                     'handler %d still listed and ok; dnshandlers=%s' % (h.hid, sorted(self.dnshandlers)))
         # 3. what the event must produce
         ev = info['event']
         if info['op'] == 'ssock' and info.get('handler') is not None:
@@ -1578,6 +1633,58 @@ class ScenarioGen:
         recs = [r for r in w.socks.values() if r.kind == 'dns' and r.owner_meta == ('dns', qid)]
         return recs[-1].sid if recs else None
 
+    def plan_reply_after_server_expiry(self, w):
+        """A query stays unanswered for more than 30 s of server time, the server loop goes round at least
+        once more, then the resolver's reply arrives on the query's socket."""
+        rng = self.rng
+        T = 30 * TICKS
+        st = {}
+
+        def cap(w):
+            st['q'] = w.nq
+            return 'cdns 2 10.0.0.7|%d 9.9.9.9|53 %s' % (4200 + rng.randrange(3), hexb(rand_payload(rng)[:32]))
+
+        def deliver(w):
+            return 'sround %d' % max(1, min(len(w.c2s), 6)) if (w.c2s and not w.server_dead) else 'sround 0'
+
+        def reply(w):
+            k = self.sock_of_query(w, st.get('q', -1))
+            return 'caccept' if (k is None or w.server_dead) else 'ssock %d d 1.1.1.1|53 %s' % (k, hexb(rand_payload(rng)[:32]))
+        plan = [cap, deliver, lambda w: 'tick %d' % (T + rng.choice([1, 2, 700, T]))]
+        plan += [lambda w: ('sround 0' if not w.server_dead else 'caccept')] * rng.choice([1, 2])
+        plan += [reply, lambda w: 'cdeliver']
+        if rng.random() < 0.5:
+            plan += [reply, lambda w: 'cdeliver']
+        return plan
+
+    def plan_attempt_fails_then_succeeds(self, w):
+        """An attempt fails with a network error at connect or at send, a later one of the three succeeds;
+        the reply to it must be relayed."""
+        rng = self.rng
+        st = {}
+
+        def cap(w):
+            st['q'] = w.nq
+            return 'cdns 2 10.0.0.8|%d 9.9.9.9|53 %s' % (4300 + rng.randrange(3), hexb(rand_payload(rng)[:32]))
+
+        def deliver(w):
+            if w.server_dead:
+                return 'caccept'
+            n = max(1, min(len(w.c2s), 6))
+            res = []
+            for _ in range(n):          # every DNS_REQ of the batch: one or two failing attempts, then success
+                for _k in range(rng.choice([1, 1, 2])):
+                    e = rng.choice([101, 113, 111, 110, 104])
+                    res += [e] if rng.random() < 0.5 else [0, e]
+                res += [0, 0]
+            return 'sround %d res=%s' % (n, ','.join(str(x) for x in res))
+
+        def reply(w):
+            k = self.sock_of_query(w, st.get('q', -1))
+            return 'caccept' if (k is None or w.server_dead) else 'ssock %d d 1.1.1.1|53 %s' % (k, hexb(rand_payload(rng)[:32]))
+        return [cap, deliver, lambda w: 'tick %d' % rng.choice([0, 64, 5 * TICKS]),
+                lambda w: ('sround 0' if not w.server_dead else 'caccept'), reply, lambda w: 'cdeliver']
+
     def plan_late_reply_family(self, w):
         """Query A is not answered in time and forgotten at an accept; query B comes from another source;
         then A's late reply arrives, then B's own."""
@@ -1626,7 +1733,8 @@ class ScenarioGen:
         if getattr(self, 'plan', None):
             return self.plan.pop(0)(w)
         if self.focus == 'dns' and not w.server_dead and rng.random() < 0.04:
-            self.plan = self.plan_late_reply_family(w)
+            self.plan = rng.choice([self.plan_late_reply_family, self.plan_reply_after_server_expiry,
+                                    self.plan_attempt_fails_then_succeeds])(w)
             return self.plan.pop(0)(w)
         udp_ok = w.method_name == 'tproxy'
         opts = []
@@ -1818,6 +1926,29 @@ def corpus(focus):
             st += [qb % 'b0', 'sround 9', 'ssock %d d 1.1.1.1|53 a1' % n0, 'ssock %d d 1.1.1.1|53 b1' % (n0 + 1),
                    'cdeliver', 'cdeliver', 'cdeliver']
             cases.append(('dns-late-reply-after-expiry-%d' % i, 'cfg method=tproxy max=65535 probes=1024 ns=1.1.1.1 tons=-', st))
+        # the resolver answers after the server forgot the query: more than 30 s of server time, one more
+        # server round (the sweep), then the reply on the same socket (several delays / kinds of round)
+        for i, (delay, extra) in enumerate([(T + 1, ['sround 0']), (T + 700, ['sround 0', 'sround 0']), (2 * T, [qb % 'b0', 'sround 1']),
+                                            (T + 1, [qb % 'b0', 'sround 1', 'ssock 1 d 1.1.1.1|53 b1']), (T, ['sround 0', 'tick 1', 'sround 0']),
+                                            (T - 1, ['sround 0'])]):
+            cases.append(('dns-reply-after-server-expiry-%d' % i, 'cfg method=tproxy max=65535 probes=1024 ns=1.1.1.1 tons=-',
+                          [q % 'a0', 'sround 1', 'tick %d' % delay] + extra +
+                          ['ssock 0 d 1.1.1.1|53 a1', 'cdeliver', 'cdeliver', 'sround 0', 'ssock 0 d 1.1.1.1|53 a2', 'cdeliver']))
+        # attempt k fails with a network error at connect or send, a later attempt succeeds, then the reply
+        # must be relayed and delivered (which attempt, where, which errno)
+        n = 0
+        for errno_ in (101, 113, 111):
+            for pat, last in (([errno_, 0, 0], 1), ([0, errno_, 0, 0], 1), ([errno_, errno_, 0, 0], 2),
+                              ([0, errno_, errno_, 0, 0], 2), ([errno_, 0, errno_, 0, 0], 2)):
+                cases.append(('dns-attempt-fails-then-succeeds-%d' % n, 'cfg method=tproxy max=65535 probes=1024 ns=1.1.1.1,8.8.8.8 tons=-',
+                              [q % 'a0', 'sround 1 res=%s' % ','.join(str(x) for x in pat), 'tick 64', 'sround 0',
+                               'ssock %d d 1.1.1.1|53 a1' % last, 'cdeliver', qb % 'b0', 'sround 1']))
+                n += 1
+            # ... or the first attempt's socket reports the error through recv, and the retry needs two tries
+            cases.append(('dns-attempt-fails-then-succeeds-%d' % n, 'cfg method=tproxy max=65535 probes=1024 ns=1.1.1.1 tons=-',
+                          [q % 'a0', 'sround 1', 'ssock 0 e %d res=%d,0,0' % (errno_, errno_), 'sround 0',
+                           'ssock 2 d 1.1.1.1|53 a1', 'cdeliver']))
+            n += 1
         # several queries answered in the same runonce pass, then duplicates / late datagrams on their sockets
         for nq in (2, 3):
             st = [q % ('%02x' % i) for i in range(nq)] + ['sround %d' % nq,
